@@ -1,12 +1,14 @@
 package props
 
 import (
+	"bytes"
 	"fmt"
 	"math/rand"
 	"strings"
 
 	"github.com/yuin/goldmark"
 	"github.com/yuin/goldmark/ast"
+	"github.com/yuin/goldmark/text"
 
 	"verif/cfg"
 	"verif/core"
@@ -226,6 +228,31 @@ func c15Specs() []cfg.Spec {
 	return out
 }
 
+var (
+	c15Prev []byte
+	c15N    int
+)
+
+// c15IdsOf returns the id attributes of the headings of an output, in order.
+func c15IdsOf(out []byte) ([]string, bool) {
+	toks, terr := oracle.Tokenize(out)
+	if terr != nil {
+		return nil, false
+	}
+	var ids []string
+	for i := range toks {
+		t := &toks[i]
+		if t.Kind == oracle.TokStart && len(t.Name) == 2 && t.Name[0] == 'h' && t.Name[1] >= '1' && t.Name[1] <= '6' {
+			for _, a := range t.Attrs {
+				if a.Name == "id" {
+					ids = append(ids, a.Value)
+				}
+			}
+		}
+	}
+	return ids, true
+}
+
 func c15Check(c *core.Ctx, pool *cfg.Pool, spec cfg.Spec, d c15Doc) {
 	name := spec.Name()
 	md := pool.Get(spec)
@@ -282,6 +309,28 @@ func c15Check(c *core.Ctx, pool *cfg.Pool, spec cfg.Spec, d c15Doc) {
 			detail = fmt.Sprintf("long-lived instance: %q\nfresh instance:      %q", r.ids, fr.ids)
 		}
 	}
+	// parse this document, parse another one on the same instance, and only then render the first tree (what a site
+	// generator does): the ids in the output must still be the ones a fresh instance gives
+	if class == "" && fr.ok && c15Prev != nil {
+		c15N++
+		if c15N%3 == 0 {
+			var out bytes.Buffer
+			pv, _ := core.Try(func() {
+				tree := md.Parser().Parse(text.NewReader(d.src))
+				_ = md.Parser().Parse(text.NewReader(c15Prev))
+				_ = md.Renderer().Render(&out, d.src, tree)
+			})
+			c.Eval()
+			c.Count("parse_parse_render_sequences", 1)
+			if pv == nil {
+				if ids, ok := c15IdsOf(out.Bytes()); ok && strings.Join(ids, "\x00") != strings.Join(fr.ids, "\x00") {
+					class, locus = "ids-depend-on-history", "parse-other-before-render"
+					detail = fmt.Sprintf("Parse(this), Parse(other), Render(this) on the long-lived instance: %q\nfresh instance: %q\nother document: %s", ids, fr.ids, q(c15Prev))
+				}
+			}
+		}
+	}
+	c15Prev = d.src
 	if class == "" {
 		return
 	}
